@@ -224,9 +224,10 @@ def rule_r4(ctx) -> List[R.Inst]:
                     guarded = f in getattr(sc, "guarded", set())      # (a None-guard inside dataclasses.replace(..): rate_model)
                     wrong = None
                     if ("reamber." + got[2]) in M.funcs:
-                        for n in ast.walk(M.nfn("reamber." + got[2]).node):      # (the model interprets the normal form)
+                        tree_ = getattr(sc, "nodes", {}).get(got[2]) or M.nfn("reamber." + got[2]).node      # (the tree the model interpreted)
+                        for n in ast.walk(tree_):
                             if isinstance(n, ast.If) and any(x is got[1] for b in n.body for x in ast.walk(b)):
-                                t = inline_locals(M.nfn("reamber." + got[2]).node, n.test, kinds=(ast.Compare, ast.BoolOp, ast.Attribute))
+                                t = inline_locals(tree_, n.test, kinds=(ast.Compare, ast.BoolOp, ast.Attribute))
                                 if f not in unparse(t):
                                     continue
                                 # the guard is a comparison of the field with constants: its truth at the sentinel and at real times
@@ -258,6 +259,9 @@ def rule_r4(ctx) -> List[R.Inst]:
                                             f"unconditionally: an unset {f} becomes {dv!r}/r (-0.5 for r = 2), the writer's int() turns that into "
                                             f"0, and the chart read back has a real {f} at 0 ms",
                                             construct=f"{cname}.{f} /= rate without a sentinel guard"))
+            elif any(f.split(".")[-1] in u for u in sc.undecided):
+                insts.append(R.undec("C13.R4", key, file, line, f"a statement that mentions '{f.split('.')[-1]}' and the rate is not modelled: "
+                                                                f"{[u for u in sc.undecided if f.split('.')[-1] in u][0][:120]}"))
             else:
                 chain = " -> ".join(short(m) for m in sc.methods)
                 insts.append(R.viol("C13.R4", key, file, line,
